@@ -275,3 +275,11 @@ Theorem C17_rfc4571_consume_wakes_reader : forall bs s tgt s' r,
   (Nice.Data.FramingModel.r_wake s' = true /\ Nice.Data.FramingModel.r_fs s' = Nice.Data.FramingModel.r_fs s /\
    Nice.Data.FramingModel.r_fo s' = Nice.Data.FramingModel.r_fo s /\ Nice.Data.FramingModel.r_buf s' = Nice.Data.FramingModel.r_buf s).
 Proof. exact Nice.Data.WakeProofs.consume_wake. Qed.
+
+(** no stall: whatever one call of the TCP branch of agent_recv_message_unlocked leaves behind (frame handed out, ICE control consumed, would-block, error),
+    a complete frame in the reassembly buffer comes with the wake flag set - for every state, kernel script, pending bytes and destination message *)
+Theorem C17_rfc4571_complete_frame_never_left_without_wakeup : forall bs ctl gate s k m st s' k' m',
+  Nice.Data.RecvProofs.bytes_ok (Nice.Data.FramingModel.r_buf s) -> Nice.Data.RecvProofs.bytes_ok (Nice.Data.FramingModel.pend k) ->
+  Nice.Data.FramingModel.recv_unlocked bs ctl gate s k m = Some (st, s', k', m') ->
+  Nice.Data.FramingModel.missing s' = false -> Nice.Data.FramingModel.r_wake s' = true.
+Proof. exact Nice.Data.WakeProofs.recv_unlocked_no_stall. Qed.
